@@ -1182,11 +1182,15 @@ func (u *Unit) havocModifies(sev *Ev, mods []Clause, c *Contract) {
 						}
 					}
 					continue
-				case "wg":
+				case "wg", "wgWaits":
 					key := u.objKey(sev, call.Args[0])
 					as := arraySort(SRef, SInt)
-					u.famSort("G:wg", as)
-					u.setFam(st, "G:wg", as, app("store", u.fam(st, "G:wg", as), key, u.fresh("wg", SInt)))
+					fam := "G:wg"
+					if fid.Name == "wgWaits" {
+						fam = "G:wgw"
+					}
+					u.famSort(fam, as)
+					u.setFam(st, fam, as, app("store", u.fam(st, fam, as), key, u.fresh("wg", SInt)))
 					continue
 				case "chanLen":
 					chv := sev.expr(call.Args[0])
@@ -1456,6 +1460,11 @@ func (u *Unit) wgOp(ev *Ev, wgExpr ast.Expr, op string, x *ast.CallExpr) {
 		u.setFam(ev.st, "G:wg", as, app("store", cur, key, app("+", app("select", cur, key), d.T)))
 	case "Done":
 		u.setFam(ev.st, "G:wg", as, app("store", cur, key, app("-", app("select", cur, key), "1")))
+	case "Wait":
+		// ghost count of completed Wait calls per wait group (wgWaits(x) in contracts)
+		u.famSort("G:wgw", as)
+		w := u.fam(ev.st, "G:wgw", as)
+		u.setFam(ev.st, "G:wgw", as, app("store", w, key, app("+", app("select", w, key), "1")))
 	}
 }
 
